@@ -418,8 +418,14 @@ static int32 fragmentHSMessage(ssl_t *ssl, unsigned char *msg, int32 msgLen,
         offset += fragLen;
         tmpLen -= fragLen;
 
-        postponeEncryptFragRecord(ssl, padLen, fragCount, fragLen,
-            msgLen, SSL_RECORD_TYPE_HANDSHAKE, hsType, encryptStart, &c);
+        if (postponeEncryptFragRecord(ssl, padLen, fragCount, fragLen,
+                msgLen, SSL_RECORD_TYPE_HANDSHAKE, hsType, encryptStart,
+                &c) < 0)
+        {
+            /* Without its flight entry this fragment would never be
+               hashed or encrypted: fail the message. */
+            return SSL_MEM_ERROR;
+        }
 
         fragCount++;
     }
